@@ -660,8 +660,9 @@ func (mp *Pool) checkTxConflicts(tx *transaction.Transaction, feer Feer) ([]*tra
 // transaction and the function returns true. If no, the transaction tx is
 // considered to be invalid, the function returns false.
 func (mp *Pool) Verify(tx *transaction.Transaction, feer Feer) bool {
-	mp.lock.RLock()
-	defer mp.lock.RUnlock()
+	// checkTxConflicts caches the balance of a sender it meets for the first time.
+	mp.lock.Lock()
+	defer mp.lock.Unlock()
 	_, err := mp.checkTxConflicts(tx, feer)
 	return err == nil
 }
